@@ -102,7 +102,7 @@ def check_sort_cases(chk, cases, profiles, full):
                 prof = PROFILES[pname]
                 for B in bsizes(n):
                     for reverse in (False, True):
-                        if B in (None, 1, n):
+                        if B in (None, 1, n) and (ci + pi) % len(profiles) == 0:      # key spellings: one (rotating) profile per case
                             msg = run_sort_spelling_case(case, prof, B, reverse, tmp, occ=ci)
                             chk.count(('sort-spelling', ci, B, reverse))
                             chk.replayed += 1
@@ -156,7 +156,7 @@ def run_merge_case(case, prof, B, reverse, presorted, tmpdir):
         return 'sort(cat(..)) delivered %r, spec %r' % (ref, want)
     # rarely used arguments: a non-default `missing` (short rows are padded with it BEFORE keying, in cat as in
     # mergesort) and an explicit `header` that moves the key field - the property's own identity mergesort == sort(cat)
-    if not presorted:
+    if not presorted and B in (None, 1):
         for kw in ({'missing': prof.conc(2)}, {'missing': u'zz'}, {'header': list(reversed(hdr))}, {'header': hdr[1:] + ['extra'] + hdr[:1]},
                    {'header': list(reversed(hdr)), 'missing': prof.conc(1)}):
             if key is None and 'header' in kw:
@@ -188,6 +188,19 @@ def run_merge_case(case, prof, B, reverse, presorted, tmpdir):
                     return 'presorted with %r raised %r' % (kw, e)
                 if got != ref:
                     return 'mergesort(presorted=True, %s) over %r delivered %r, sort(cat(.., %s), key) delivers %r' % (kw, pres, got, kw, ref)
+    # rows LONGER than the header: surplus cells are dropped by cat, by the default mergesort and by presorted=True alike
+    if key is not None and B in (None, 1):
+        tl = [[t[0]] + [list(r) + ([u'surplus', i] if (i + j) % 2 == 0 else []) for j, r in enumerate(t[1:])] for i, t in enumerate(tables)]
+        try:
+            ref = [tuple(r) for r in etl.sort(etl.cat(*tl), key, reverse=reverse)]
+            got = [tuple(r) for r in etl.mergesort(*tl, key=key, reverse=reverse, buffersize=B, tempdir=tmpdir)]
+            pres = [[t[0]] + [list(r) for r in etl.data(etl.sort(t, key, reverse=reverse))] for t in tl]
+            # (sort keeps the surplus cells of long rows: the presorted inputs are as long as the originals)
+            gotp = [tuple(r) for r in etl.mergesort(*pres, key=key, reverse=reverse, presorted=True)]
+        except Exception as e:
+            return 'with over-long rows raised %r' % (e,)
+        if got != ref or gotp != ref:
+            return 'over-long rows %r: mergesort delivers %r, mergesort(presorted=True) %r, sort(cat(..)) %r' % (tl, got, gotp, ref)
     return None
 
 
